@@ -11,7 +11,7 @@ for X in M1 M2 M3 M4; do
   suite=$(echo "$out" | sed -n '/existing tests/,/demo with mutation/p' | grep -c "test result: ok")
   fails=$(echo "$out" | sed -n '/demo with mutation/,$p' | grep -c "FAILED\|test failed")
   if [ "$clean" -ge 1 ] && [ "$suite" -ge 2 ] && [ "$fails" -ge 1 ]; then
-    L=""; for c in a b c d e f g h i j k l m n; do [ -d /verif/seeded/$P-$c ] || { L=$c; break; }; done
+    L=""; for c in 8a 8b 8c 8d 8e 8f 8g 8h 8i 8j; do [ -d /verif/seeded/$P-$c ] || { L=$c; break; }; done
     mkdir -p /verif/seeded/$P-$L
     cp $WT/MUTATION_$X/patch.diff $WT/MUTATION_$X/demo.rs $WT/MUTATION_$X/meta.json /verif/seeded/$P-$L/
     python3 - <<PY
